@@ -28,6 +28,13 @@ for prop in props:
         print(prop, "CRASH", repr(e)[:300]); continue
     cx.finish_floors()
     bad = [o for o in cx.obl if o["status"] == "violation" and o["key"] not in known]
+    # the engine tolerates, on the inlined evaluation, a floor shortfall of up to a half when nothing else of the rule fails
+    for o in list(bad):
+        if o["key"].endswith(":floor"):
+            r = cx.rules.get(o["rule"]) or {}
+            others = [x for x in bad if x["rule"] == o["rule"] and x is not o]
+            if not others and r.get("floor") and r.get("instances", 0) >= max(1, -(-r["floor"] // 2)):
+                bad.remove(o)
     print(prop, "inline-only violations:", len(bad))
     for o in bad:
         print("   ", o["key"], "|", o["detail"][:160])
